@@ -903,13 +903,16 @@ fn selftest() {
 }
 
 fn main() {
-    pv::quiet_panics();
+    pv::main_guard(real_main)
+}
+
+fn real_main() -> i32 {
     selftest();
     let (ctx, mode) = Ctx::from_args("C06");
     if let Mode::Replay(rep) = mode {
         let mut c = Collector::new();
         replay(&mut c, &rep);
-        std::process::exit(ctx.finish_replay(c));
+        return ctx.finish_replay(c);
     }
     let mut total = Collector::new();
     for t in f2u_table() {
@@ -937,5 +940,5 @@ fn main() {
         "states = source values walked in numeric order (complete f32, u8, u16, u32 spaces; lattices for f64/u64/u128); every state is converted to each target format and compared with an exact integer-arithmetic prediction; non-trivial = float inputs strictly inside (0,1) resp. integer sources other than 0 and MAX",
         &["exact oracle: |r − x·MAX| <= 1/2 + ulp_W(x·MAX) with W the float type the implementation scales in (f32 for f32->u8/u16, f64 otherwise), evaluated in 256-bit integer arithmetic", "Rust `as` casts between float types are IEEE round-to-nearest (used to predict f64->f32)"],
     );
-    std::process::exit(code);
+    code
 }
